@@ -489,6 +489,66 @@ def validate_traces(run, scratch, pairs):
     run.note("trace_validation", stats)
 
 
+# -------------------------------------------- growth: histories of runs, composition of objects
+def start_growth_models(run, scratch, tier):
+    """TLC on ComposedAppRuns.tla (both store kinds) and ComposedAppLinks.tla, in the background"""
+    from concurrent.futures import ThreadPoolExecutor
+
+    def cfg_runs(name, retry):
+        if tier == "quick":
+            return f"MC_ComposedApp_runs_{name}.cfg"
+        p = scratch / f"MC_runs_{name}.cfg"
+        text = (VERIF / "specs" / f"MC_ComposedApp_runs_{name}.cfg").read_text().replace("MaxRuns = 2", "MaxRuns = 3") + "PROPERTY AllGivenAccounted\n"
+        p.write_text(text)
+        return os.path.relpath(p, VERIF / "specs")
+
+    ex = ThreadPoolExecutor(3)
+    return ex, {
+        "runs-dir": ex.submit(model, run, scratch, cfg_runs("retry", True), "runs-retry(dir)", True, "ComposedAppRuns", 2),
+        "runs-sqlite": ex.submit(model, run, scratch, cfg_runs("keep", False), "runs-keep(sqlite)", True, "ComposedAppRuns", 2),
+        "links": ex.submit(model, run, scratch, "MC_ComposedApp_links.cfg" if tier == "quick" else "MC_ComposedApp_links_thorough.cfg", "links", True, "ComposedAppLinks", 2),
+    }
+
+
+def replay_growth(run, scratch, in_dir, tier, futs):
+    import links_C14
+    import runs_C14
+    from graph import Graph, explore
+
+    t0 = time.time()
+    stats = {}
+    runs_C14.warm_up(scratch, in_dir)
+    budgets = {"runs-dir": 150, "runs-sqlite": 50, "links": 600} if tier == "quick" else {"runs-dir": 2000, "runs-sqlite": 500, "links": 8000}
+    for name, kind in (("runs-dir", "dir"), ("runs-sqlite", "sqlite")):
+        recs = futs[name].result()
+        if tier == "quick":
+            # the budget goes to what a history can change: every call on a fresh store, and on a
+            # store with a history the accepted apply_to calls (resuming, logging) plus 1 in 6 of the rest
+            # (selection is per (state, call): all outcomes the spec allows for a kept call stay together)
+            import zlib
+
+            recs = [
+                r for r in recs
+                if r["from"]["nrun"] == 0
+                or (r["act"] == "ApplyTo" and r["args"][0] and r["args"][2] == 0)
+                or zlib.crc32(json.dumps([r["from"], r["act"], r["args"]], sort_keys=True).encode()) % 6 == 0
+            ]
+        init = {"store": [{"kind": "none", "run": 0}] * 2, "logs": [], "nrun": 0}
+        st = explore(Graph(recs), init, runs_C14.RunsAdapter(kind, 2, scratch, in_dir), run, budget=budgets[name], seed=run.seed)
+        stats[name] = st
+    recs = futs["links"].result()
+    apps = "LAPRW" if tier == "quick" else "LAPRXW"
+    init = {"link": {a: "none" for a in apps}}
+    stats["links"] = explore(Graph(recs), init, links_C14.LinksAdapter(scratch, apps), run, budget=budgets["links"], seed=run.seed)
+    n = sum(st["impl_transitions_checked"] for st in stats.values())
+    run.cov["traces_validated_against_impl"] += n
+    stats["wall_s"] = round(time.time() - t0, 1)
+    run.note("growth_replays", stats)
+    if recs:
+        run.sample({"links_transition": recs[len(recs) // 2]})
+    return n
+
+
 # ----------------------------------------------------------------------------- check
 def index_records(recs):
     ser, par = {}, defaultdict(list)
@@ -573,6 +633,10 @@ def check(run: Run):
     with Scratch("C14") as scratch:
         try:
             in_dir = impl_C14.prepare_inputs(scratch, 4)
+            import apps_C14  # noqa: F401  (loaded once here, inherited by every forked worker)
+            import cogent3.app.io  # noqa: F401
+
+            gex, gfuts = start_growth_models(run, scratch, tier)
             plans2, plans3, plans4 = gen_plans(2, run.seed), gen_plans(3, run.seed), gen_plans(4, run.seed)
             live = scratch / "live.plans.json"
             live.write_text(json.dumps([[list(q) for q in plan] for plan in plans3[:12]]))
@@ -701,6 +765,10 @@ def check(run: Run):
             run.cov["traces_validated_against_impl"] += nser
             run.note("serial_replays", {"runs": nser, "single_input_reference_runs": len(alone_keys), "wall_s": round(time.time() - t0, 1)})
 
+            # ------------------------- growth: histories of runs, composition of app objects
+            ngrowth = replay_growth(run, scratch, in_dir, tier, gfuts)
+            gex.shutdown()
+
             # ------------------------------------------------ forced parallel schedules
             t0 = time.time()
             pobs = masters.collect()
@@ -743,9 +811,11 @@ def check(run: Run):
         finally:
             if masters is not None:
                 masters.kill()
+            if "gex" in locals():
+                gex.shutdown(wait=True, cancel_futures=True)
 
     run.cov["evaluations"] += run.cov["traces_validated_against_impl"]
-    run.cov["distinct_nontrivial"] = len(DISTINCT)
+    run.cov["distinct_nontrivial"] = len(DISTINCT) + ngrowth
     run.cov["exhaustive"] = False
     run.cov["rule"] = (
         "TLC: all plans over 13 canonical outcome profiles x W in {serial,1,2,3} x all completion orders x all consumption lags "
@@ -754,7 +824,9 @@ def check(run: Run):
         "behaviour x {write_seqs, write_json, write_db} x {directory, sqlite} x {member, path inputs}; forced parallel completion "
         "orders (quick: 6 order classes; thorough: every feasible order for n<=4, W<=3, plans drawn from a pairwise-covering set); "
         "free-running parallel runs validated as traces. distinct_nontrivial = distinct (apply_to|as_completed, writer, input kind, "
-        "plan, W, completion order) executed on the real code whose plan has at least one failing record"
+        "plan, W, completion order) executed on the real code whose plan has at least one failing record, plus the distinct "
+        "(state, call, variant) transitions of ComposedAppRuns.tla (histories of apply_to runs on one store, directory and sqlite) "
+        "and ComposedAppLinks.tla (composition / disconnect / call of six app objects) replayed on the real code"
     )
     run.assumptions += [
         "value classes (harness/apps_C14.py): the value handed to a failing step / returned by a `wrong` step is a cogent3 object with info.source, "
@@ -769,6 +841,12 @@ def check(run: Run):
         "dispatch model (FIFO queue, at most W running) is loky's; MPI executor and progress-bar UI are not covered",
         "apply_to argument errors (empty input, duplicate identifiers) and resuming into a non-empty store are outside the model",
         "content equality for write_db records is judged on the decoded object, not the pickle byte stream",
+        "resuming (ComposedAppRuns.tla) follows the apply_to docstring ('if a member already exists ... it is skipped'); which members count "
+        "is the store's: a DataStoreDirectory retries inputs that have a not-completed record, a DataStoreSqlite keeps them (it finds the "
+        "not-completed record and refuses to overwrite it in append mode) - modelled as the constant RetryFailed, not judged",
+        "a list whose duplicated identifier is already stored may be refused or accepted (the docstring does not say; cogent3 accepts it)",
+        "composition (ComposedAppLinks.tla) follows the define_app docstring; compositions that close a cycle of links are outside the model; "
+        "type overlap is by hint NAME as documented (a step hinted SerialisableType cannot follow an app that returns only a concrete type)",
     ]
 
 
